@@ -150,7 +150,7 @@ PROPS = {
     },
     "C07": {
         "rules": [r_scorer.run, kind_scope("connector", "scorer", "builder"), r_kind.bins("compile-bin"), r_fmt.csvrow, r_panic.run_narrow_connector,
-                  r_codec.derived_caches, r_codec.lanes_rule],
+                  r_codec.derived_caches, r_codec.lanes_rule, r_codec.simd_build_rule],
         "explanation": "SCORERCHK: in the portable build costs[pos] is read only on the true edge "
                        "of checks[pos] == key1 at pos = bases[key1] ^ key2; in the AVX2 build the "
                        "cost gather is masked by cmpeq(check, key1) AND the position-validity "
@@ -276,7 +276,7 @@ PROPS = {
     },
     "XKIND": {"rules": [r_kind.run_all], "explanation": "debug: KIND only", "level_text": "", "level_note": "", "technique": ""},
     "C05": {
-        "rules": [r_codec.run_c05, r_codec.derived_caches, r_codec.lanes_rule],
+        "rules": [r_codec.run_c05, r_codec.derived_caches, r_codec.lanes_rule, r_codec.simd_build_rule],
         "explanation": "CODEC: for every hand-written bincode codec reachable from the dictionary "
                        "image the ordered (wire type, field) sequence of the encoder equals that "
                        "of the decoder, in the portable and the AVX2 build, and BorrowDecode "
@@ -507,8 +507,8 @@ _ADDED2 = {
     "C12": "OPTSET as for C04 (ignore_space / max_grouping_len). UNKSPAN: a prefix candidate is skipped on account of the sentence length only when it would end beyond the last character, so a sentence-final word has the candidates it has in front of a space run.",
     "C15": "SCALE (the C14 rule): the scale factor is recomputed from the current merged model by each writer (a memoised factor would survive read_user_lexicon and differ from a re-read model).",
     "C08": "RAWINPUT / ERRPROP over the user-lexicon reader: the caller's bytes reach the parser unchanged and no read or parse error is swallowed. OPTSET as for C04, over the Dictionary's by-value methods. MAPKEEP reset clauses: every Ok exit of reset_user_lexicon_from_reader assigns data.user_lexicon; with a None reader the only value assigned is None.",
-    "C05": "LANES: U31x8::encode writes lanes 0..7 in order in both build configurations.",
-    "C07": "ACCUM (portable and AVX2 builds): accumulate_cost pairs keys1[i] with keys2[i] through plain zips (no skip/rev/take), starts at zero and only adds lookup results; the AVX2 build sums lanes 0..7 once each. SCORERCHK (AVX2) also requires base = bases[key1] gathered under key1 < bases_len, zero for masked-out lanes and the 4-byte gather scale. LANES as for C05. CSVROW as for C17 (cells of bigram.right/left lines). KIND over compile's main: the readers opened from --bigram-right-in / --bigram-left-in reach the builder parameters of their own side.",
+    "C05": "SIMDBUILD (AVX2 build): U31x8::decode and to_simd_vec build their vector by an in-order load of the whole (padded) array. LANES: U31x8::encode writes lanes 0..7 in order in both build configurations.",
+    "C07": "ACCUM (portable and AVX2 builds): accumulate_cost pairs keys1[i] with keys2[i] through plain zips (no skip/rev/take), starts at zero and only adds lookup results; the AVX2 build sums lanes 0..7 once each. SCORERCHK (AVX2) also requires base = bases[key1] gathered under key1 < bases_len, zero for masked-out lanes and the 4-byte gather scale. LANES and SIMDBUILD as for C05. CSVROW as for C17 (cells of bigram.right/left lines). KIND over compile's main: the readers opened from --bigram-right-in / --bigram-left-in reach the builder parameters of their own side.",
     "C06": "KIND over map's main: the list read from *.lmap is the left mapping argument and *.rmap the right one.",
     "C13": "KIND over map's main as for C06 (the files reorder writes are consumed on their own side).",
     "C14": "USERROW: every user row read by read_user_lexicon passes through extract_feature_set and add_feature_set in its own loop iteration. QUOTER also requires the input to advance by the consumed count nin and each write to be cut at the produced count nout. KIND over dictgen's main: writers created with the .left / .right suffixes reach write_bigram_details' parameters of their own side.",
